@@ -140,6 +140,21 @@ def run(tier):
                 else:
                     ops.append(st.gen_fwd_op(rng, t, inp=[(c & 0x3f) + 0x40 for c in u], mode=0, cap=cap, argmask=rng.choice([31, 0])))
         hist_cases.append(common.Case("c02-y%d" % hi, ["HOOK trace 1", "HOOK alloc 1"], ops, {"kind": "history"}))
+    # capacity sweeps with every output array present (exact sizes) on cells of the table's own rules: an indicator or a
+    # blank inserted when the output is exactly full must not touch outbuf/typeform/spacing/inputPos[outlen]
+    vocab = corpus.table_vocab(exe, tables)
+    for ti, t in enumerate(tables):
+        vv = vocab.get(t)
+        if not vv or not vv.by_op:
+            continue
+        ops = []
+        for _ in range(3 if tier == "quick" else 12):
+            u = vv.braille(rng, 12)
+            if not u:
+                continue
+            for cap in range(0, 2 * len(u) + 3):
+                ops.append(st.gen_bwd_op(rng, t, u, mode=4, cap=cap, argmask=31))
+        cases.append(common.Case("c02-s%d" % ti, ["HOOK trace 1", "HOOK exact 1"], ops, {"table": t, "kind": "sweep"}))
     # wide generated tables (all opcode families, backward rules incl. nofor multipass/match/swap), cells of the rules
     cases += st.wide_cases(rng, 200 if tier == "quick" else 3000, per_table=4, back=True, exact=True, tag="c02w", budget=3000000)
     calls = st.run_and_trace(exe, cases, timeout=300)
